@@ -6,6 +6,7 @@ import math
 import re
 import sys
 from decimal import Decimal
+from decimal import InvalidOperation
 from itertools import islice
 from typing import TYPE_CHECKING
 from typing import Any
@@ -2279,7 +2280,7 @@ def _eq(left: object, right: object) -> bool:
 
     try:
         return left == right
-    except ArithmeticError:
+    except InvalidOperation:
         # A signalling NaN decimal equals nothing.
         return False
 
@@ -2302,7 +2303,7 @@ def _lt(token: TokenT, left: object, right: object) -> bool:
     ):
         try:
             return left < right
-        except ArithmeticError:
+        except InvalidOperation:
             # Ordering a NaN decimal signals. A float NaN is less than nothing.
             return False
 
@@ -2336,10 +2337,12 @@ def _contains(token: TokenT, left: object, right: object) -> bool:
     if isinstance(left, Collection):
         try:
             return right in left
-        except (TypeError, ArithmeticError):
-            # An unhashable object can't be a member of a hash or set, and a
-            # signalling NaN decimal equals nothing.
+        except TypeError:
+            # An unhashable object can't be a member of a hash or set.
             return False
+        except InvalidOperation:
+            # A signalling NaN decimal among the items equals nothing. Skip it.
+            return any(_eq(item, right) for item in left)
 
     raise LiquidTypeError(
         f"'in' and 'contains' are not supported between '{left.__class__.__name__}' "
